@@ -109,7 +109,11 @@ def check_basis(case):
     P = [Perm(p) for p in perms]
     verdict = PW.has_finite_simples(P)
     # ---- (i) entry points agree, invariance
+    by_len = sorted(P, key=lambda q: (len(q), tuple(q)))
+    zigzag = [by_len[i // 2] if i % 2 == 0 else by_len[-1 - i // 2] for i in range(len(by_len))]  # lengths interleaved
     variants = [list(P), list(reversed(P)), P + P[:1], tuple(P), set(P)]
+    if len(P) >= 3:
+        variants += [by_len, list(reversed(by_len)), zigzag]
     for var in variants:
         if PW.has_finite_simples(var) != verdict:
             return BAD("order_or_container_dependent", {"basis": [list(p) for p in perms]})
@@ -264,6 +268,13 @@ def boundary_cases(draw, max_len, nmax):
 def basis_cases(draw, max_len, nmax):
     if draw(st.integers(0, 2)) == 0:
         return draw(boundary_cases(max_len, nmax))
+    if draw(st.integers(0, 3)) == 0:
+        # every element essential: an increasing and a decreasing permutation of the same length
+        # with a third, longer or shorter, permutation listed between them (a finite class; without
+        # either monotone element unboundedly long pin sequences survive)
+        a = draw(st.integers(3, 4))
+        other = list(draw(gen.perms(2, min(max_len, 5)).filter(lambda q: len(q) != a)))
+        return {"perms": [list(range(a)), other, list(range(a - 1, -1, -1))], "nmax": nmax, "symmetries": False}
     k = draw(st.integers(1, 4))
     perms = []
     for _ in range(k):
